@@ -47,8 +47,11 @@ def depth(p):
 
 
 class Model:
-    def __init__(self, fmt):
+    def __init__(self, fmt, wt3=False):
         self.fmt = fmt           # "bzr" | "git"
+        # inventory-file working tree (format 3): a commit does not rewrite
+        # the kinds the working inventory remembers
+        self.wt3 = wt3
         self.disk = {}
         self.inv = {ROOT: [None, "", "directory"]}
         self.basis = {ROOT: [None, "", "directory", None, None]}
@@ -56,6 +59,7 @@ class Model:
         self.gbasis = {}
         self.ntok = 0
         self.commits = 0
+        self.history = []    # bzr: the basis of every commit so far
         self.unc = set()     # bzr toks whose recorded kind is unknown
         self.flags = set()   # preconditions of known defects met by the
         #                      last step (the generator thins those out)
@@ -315,6 +319,18 @@ class Model:
     def op_observe(self, n):
         return "ok"
 
+    def op_rebase(self, k):
+        """set_parent_ids([k-th commit]), observe, and back to the tip: the
+        tree content is untouched, status is then relative to that commit."""
+        if self.fmt != "bzr" or not 0 <= k < len(self.history):
+            raise ModelError(["no such commit", k])
+        return "ok"
+
+    def op_reset_parents(self):
+        """set_parent_ids(get_parent_ids()): rewrites the basis column(s) of
+        the tree state with what they already hold - nothing changes."""
+        return "ok"
+
     # -- add
     def op_add(self, p):
         k = self.kind(p)
@@ -326,7 +342,8 @@ class Model:
             return "ok"
         ip = self.ipaths()
         if p in ip:
-            return "ok"
+            # dirstate trees skip it silently, inventory-file trees refuse
+            return "unchanged"
         par = parent(p)
         if par not in ip:
             if par in self.ipaths(self.basis):
@@ -461,14 +478,12 @@ class Model:
         if bp not in ip:
             return "refuse"
         if inside(a, b):
-            self.flags.add("bzr-rename-os-error")
             return "refuse"
         self._certain(ip[bp], b)
         if self.inv[ip[bp]][2] != "directory":
             raise ModelError(["rename below stored non-directory", b])
         if a_on:
             if not self.can_os_rename(a, b):
-                self.flags.add("bzr-rename-os-error")
                 return "refuse"
             self.mv_tree(a, b)
         t = ip[a]
@@ -599,10 +614,13 @@ class Model:
             if p == "":
                 continue
             e = self.disk[p]
-            self.inv[t][2] = e[0]
+            if not self.wt3:
+                self.inv[t][2] = e[0]
             nb[t] = [self.inv[t][0], self.inv[t][1], e[0], e[1], e[2]]
         self.basis = nb
-        self.unc = set()
+        self.history.append(copy.deepcopy(nb))
+        if not self.wt3:
+            self.unc = set()
         return "ok"
 
     # -- revert
@@ -660,7 +678,10 @@ class Model:
                     self.disk[p] = list(e)
             else:
                 self.inv = {t: e[:3] for t, e in self.basis.items()}
-                self.unc = set()
+                # (an inventory-file tree keeps the kind it remembered for
+                # entries revert had nothing to do for)
+                self.unc = set(t for t in self.unc if t in self.inv) \
+                    if self.wt3 else set()
                 for p, t in self.ipaths().items():
                     if p != "":
                         self.disk[p] = list(self.basis[t][2:5])
@@ -727,7 +748,7 @@ class Model:
                for p in self.idx):
             self.flags.add("type-changed-path")
 
-    def git_pairs(self, p):
+    def git_pairs(self, p, any_source=False):
         """Paths that git's rename detection could pair with p: p is a
         basis path that is deleted or modified and an added file resembles
         its committed text, or p is an added file resembling such a text."""
@@ -737,7 +758,8 @@ class Model:
         def norm(e):
             return [e[0], e[1], bool(e[2]) if e[0] == "file" else None]
         changed = [q for q, e in self.gbasis.items()
-                   if tree_side(q) is None or norm(tree_side(q)) != norm(e)]
+                   if any_source or tree_side(q) is None or
+                   norm(tree_side(q)) != norm(e)]
         # (a kind change in place counts as a deletion plus an addition)
         added = [q for q in self.idx if tree_side(q) and (
             q not in self.gbasis or self.gbasis[q][0] != tree_side(q)[0])]
@@ -762,8 +784,13 @@ class Model:
         # (a filtered comparison drags newly added parents along, and what
         # revert then does to them is not stated by the property)
         par = parent(p)
+        if not self.real_dir(par):
+            # (a missing parent directory is recreated by some comparison
+            # implementations' "needed parents" and not by others)
+            return None
         if self.fmt == "git":
-            if par != "" and par not in self.basis_paths():
+            if par != "" and (par not in self.basis_paths() or
+                              par in self.gbasis):
                 return None
         elif par != "":
             pt = self.ipaths().get(par)
@@ -777,7 +804,7 @@ class Model:
                 # an index entry that became a directory shows up in every
                 # filtered comparison
                 return None
-            if self.git_pairs(p):
+            if self.git_pairs(p, any_source=True):
                 # similarity-based rename / copy detection would tie p to
                 # another path: which of the two a filtered revert touches is
                 # not part of the property
